@@ -1,10 +1,16 @@
 #!/bin/sh
-# usage: tools/seed_eval.sh <seed-dir-name> <check-id>...   : apply the seeded change to /repo, run the checks, undo
+# usage: tools/seed_eval.sh <seed-dir-name> <langs|-> <check-id>...
+# Evaluates a seeded change WITHOUT touching /repo: a scratch copy of /repo gets the patch and the checks run with
+# VERIF_REPO pointing at the copy (same effect as `git -C /repo apply; ./check; git -C /repo checkout -- .`, but safe
+# while other checks are running).  The copy and its build output are removed afterwards.
 cd "$(dirname "$0")/.." || exit 2
-S=seeded/$1; shift
-git -C /repo diff --quiet || { echo "/repo has uncommitted changes"; exit 2; }
-git -C /repo apply "$PWD/$S/patch.diff" || exit 2
+S=$1; LANGS=$2; shift; shift
+W=/tmp/seedrepo-$S
+rm -rf "$W"; mkdir -p "$W"; rsync -a --exclude target --exclude .git /repo/ "$W/" || exit 2
+(cd "$W" && patch -p1 -s < "/verif/seeded/$S/patch.diff") || { echo "patch does not apply"; exit 2; }
 for c in "$@"; do
-  echo "=== $S : $c"; ./check "$c" --tier quick 2>&1 | grep -v "^\[" | tail -n 6 | cut -c1-400; echo "exit=$?"
+  echo "=== $S : $c"
+  if [ "$LANGS" = "-" ]; then VERIF_REPO=$W VERIF_EVIDENCE_DIR=/tmp/seedrepo-$S-ev ./check "$c" --tier quick > /tmp/seed_${S}_$c.log 2>&1; else VERIF_LANGS=$LANGS VERIF_REPO=$W VERIF_EVIDENCE_DIR=/tmp/seedrepo-$S-ev ./check "$c" --tier quick > /tmp/seed_${S}_$c.log 2>&1; fi
+  echo "exit=$?"; grep -v "^\[" /tmp/seed_${S}_$c.log | grep "violated\|VIOLATION\|INCONCL\|quick:" | head -n 8 | cut -c1-400
 done
-git -C /repo checkout -- .
+rm -rf "$W" /tmp/seedrepo-$S-ev
